@@ -30,7 +30,14 @@ func callSeq(fd *ast.FuncDecl, names ...string) []string {
 			return true
 		}
 		n := ""
-		switch f := ce.Fun.(type) {
+		fun := ce.Fun
+		if ix, ok := fun.(*ast.IndexExpr); ok { // generic instantiation f[T](...)
+			fun = ix.X
+		}
+		if ix, ok := fun.(*ast.IndexListExpr); ok {
+			fun = ix.X
+		}
+		switch f := fun.(type) {
 		case *ast.SelectorExpr:
 			n = f.Sel.Name
 		case *ast.Ident:
@@ -469,6 +476,80 @@ func extractC18Round2(c *Ctx, kf, mf, af *ast.File, create, activate, sale *ast.
 			c.P("Definition iter_all_fnc_stop_test : string := %s.", CoqStr(stop))
 		}
 	}
+	// rounds 3-4: who reads the licence store, through which helper, and every place in x/paloma
+	// where a page, a limit or a bounded iteration could cut a list short
+	pk, err := c.ParseDir("x/paloma/keeper")
+	if err != nil {
+		return err
+	}
+	pm, err := c.ParseDir("x/paloma")
+	if err != nil {
+		return err
+	}
+	helpers := []string{"IterAll", "IterAllFnc", "IterAllRaw", "Load", "Save", "Delete", "Paginate", "FilteredPaginate",
+		"GenericFilteredPaginate", "Iterator", "ReverseIterator", "Has", "Get", "Set"}
+	var storeUsers, listCallers, pageSites []string
+	for _, f := range append(pk, pm...) {
+		for _, d := range f.Decls {
+			fd, ok := d.(*ast.FuncDecl)
+			if !ok || fd.Body == nil {
+				continue
+			}
+			if len(Calls(fd.Body, "lightNodeClientLicenseStore")) > 0 {
+				storeUsers = append(storeUsers, fd.Name.Name+":"+strings.Join(callSeq(fd, helpers...), ","))
+			}
+			for range Calls(fd.Body, "AllLightNodeClientLicenses") {
+				listCallers = append(listCallers, fd.Name.Name)
+			}
+			ast.Inspect(fd.Body, func(n ast.Node) bool {
+				switch x := n.(type) {
+				case *ast.SelectorExpr:
+					switch x.Sel.Name {
+					case "Paginate", "FilteredPaginate", "GenericFilteredPaginate", "PageRequest", "Limit", "DefaultLimit", "CountTotal", "Offset":
+						pageSites = append(pageSites, fd.Name.Name+":"+x.Sel.Name)
+					}
+				}
+				return true
+			})
+		}
+	}
+	sort.Strings(storeUsers)
+	sort.Strings(listCallers)
+	sort.Strings(pageSites)
+	c.P("(* readers / writers of the licence store, callers of the licence list, pagination in x/paloma *)")
+	c.P("Definition licence_store_users : list string := %s.", CoqStrList(storeUsers))
+	c.P("Definition licence_list_callers : list string := %s.", CoqStrList(listCallers))
+	c.P("Definition paloma_pagination_sites : list string := %s.", CoqStrList(pageSites))
+	if iterf2, err := c.Parse("util/keeper/iter.go"); err == nil {
+		for _, name := range []string{"IterAll", "IterAllFnc"} {
+			f := FindFunc(iterf2, "", name)
+			if f == nil {
+				return fmt.Errorf("util/keeper/iter.go: %s not found", name)
+			}
+			loops, exits := []string{}, 0
+			ast.Inspect(f.Body, func(n ast.Node) bool {
+				switch x := n.(type) {
+				case *ast.ForStmt:
+					h := "for " + c.Src(x.Init) + "; " + c.Src(x.Cond) + "; " + c.Src(x.Post)
+					if x.Init == nil {
+						h = "for ; " + c.Src(x.Cond) + "; " + c.Src(x.Post)
+					}
+					loops = append(loops, h)
+				case *ast.RangeStmt:
+					loops = append(loops, "range "+c.Src(x.X))
+				case *ast.BranchStmt:
+					if x.Tok.String() == "break" {
+						exits++
+					}
+				}
+				return true
+			})
+			c.P("Definition %s_loops : list string := %s.", strings.ToLower(name), CoqStrList(loops))
+			c.P("Definition %s_breaks : Z := %d.", strings.ToLower(name), exits)
+			c.P("Definition %s_calls : list string := %s.", strings.ToLower(name), CoqStrList(callSeq(f, "IterAllFnc", "Iterator", "ReverseIterator", "Paginate")))
+		}
+	}
+	// the contract comparison operands of the sale handler (rounds 3-4: no decoding on either side)
 	c.P("(* x/skyway/abci.go *)")
 	c.P("Definition endblocker_defers_recover : bool := %v.", recovers)
 	c.P("Definition endblocker_calls : list string := %s.", CoqStrList(callSeq(eb, "createBatch", "attestationTally", "pruneAttestations", "CacheContext")))
